@@ -1239,7 +1239,6 @@ func TestC19MapEnds(t *testing.T) {
 
 func init() { reg("C19.mapends", checkC19MapEnds) }
 
-
 // ---- filter arguments of every number width --------------------------------------------------------------------
 
 type C19ArgWidthCase struct {
